@@ -264,6 +264,26 @@ pub fn run(run: &Run) {
             cp += n as u32;
         }
     });
+    // adjacent code points (c, c+1) in both orders inside RTL and LTR frames (table-run caches with off-by-one bounds)
+    run.par("adjacent_code_point_pairs", true, |tid, n, l| {
+        let d = db();
+        let mut cp = tid as u32;
+        while cp + 1 < 0x110000 {
+            if d.u16.listed[cp as usize] && d.u16.listed[cp as usize + 1] {
+                if let (Some(a), Some(b)) = (char::from_u32(cp), char::from_u32(cp + 1)) {
+                    for (t, s) in [format!("\u{5d0}{a}{b}"), format!("a{a}{b}"), format!("\u{5d0}{b}{a}"), format!("a{b}{a}1"), format!("{a}{b}"), format!("\u{627}{a}{b}\u{661}")].into_iter().enumerate() {
+                        l.cases += 1;
+                        let p = profs[t % 2];
+                        if check(run, p, &s, l).is_err() {
+                            report(run, p, &s);
+                            return;
+                        }
+                    }
+                }
+            }
+            cp += n as u32;
+        }
+    });
     // exact run lengths of every class (counters that wrap), inside RTL and LTR labels
     run.par("class_runs_exact_counts", true, |tid, n, l| {
         let reps = reps_for("class_runs_exact_counts", tid);
